@@ -80,8 +80,8 @@ fn scenario(seq: i64, seq_dec: &[u8], with_salt: bool) {
 }
 
 //@ ob: C02.O1a
-//@ tier: thorough
-//@ cap: 1800
+//@ tier: off
+//@ cap: 3000
 //@ also: C03
 //@ desc: MutableItem::from_dht_message(target, k, v, seq, sig, salt) = Ok(item) iff the signature oracle said valid for exactly (k, bencode-signable(salt, seq, v), sig) AND target = SHA1(k || salt) (the target function abstracted; bound to SHA-1 over k || salt by C02.O1t); the item carries k, seq, v, salt, sig -- instance seq = 1, no salt
 //@ bounds: k = a concrete valid Ed25519 key; target 20 symbolic bytes; sig 64 symbolic bytes; v 1 symbolic byte; symbolic verdict; seq = 1 (format! of a symbolic i64 does not finish); unwind 66 (signature compare)
@@ -97,8 +97,8 @@ fn c02_o1a_from_dht_message_seq1_nosalt() {
 }
 
 //@ ob: C02.O1b
-//@ tier: thorough
-//@ cap: 1800
+//@ tier: off
+//@ cap: 3000
 //@ also: C03
 //@ desc: same as C02.O1a with seq = -1 and a 1-byte symbolic salt: an item for another salt (target of a different salt) is rejected
 //@ bounds: as C02.O1a; salt 1 symbolic byte; seq = -1
@@ -114,8 +114,8 @@ fn c02_o1b_from_dht_message_neg_salt() {
 }
 
 //@ ob: C02.O1c
-//@ tier: thorough
-//@ cap: 2400
+//@ tier: off
+//@ cap: 3000
 //@ also: C03
 //@ desc: same with seq = i64::MIN (longest decimal text), no salt
 //@ bounds: as C02.O1a; seq = i64::MIN
@@ -131,8 +131,8 @@ fn c02_o1c_from_dht_message_min() {
 }
 
 //@ ob: C02.O1d
-//@ tier: thorough
-//@ cap: 2400
+//@ tier: off
+//@ cap: 3000
 //@ also: C03
 //@ desc: same with seq = i64::MAX and a salt
 //@ bounds: as C02.O1a; seq = i64::MAX; salt 1 symbolic byte
